@@ -54,6 +54,11 @@ type SeenSleepCommand struct {
 	Key      SleepCommandKey
 	SeenAt   time.Time
 	SeenFrom identity.AgentID
+
+	// ValidUntil is the end of the command's timestamp validity window when command
+	// signing is configured (zero otherwise). The entry is kept at least that long, so a
+	// signed command cannot be replayed after its cache entry expired.
+	ValidUntil time.Time
 }
 
 // FloodConfig contains configuration for the flood protocol.
@@ -906,7 +911,7 @@ func (f *Flooder) cleanupNodeInfoCache(now time.Time, expiry time.Duration) {
 // Must be called with f.sleepCmdMu held.
 func (f *Flooder) cleanupSleepCmdCache(now time.Time, expiry time.Duration) {
 	for key, entry := range f.sleepCmdSeenCache {
-		if now.Sub(entry.SeenAt) > expiry {
+		if now.Sub(entry.SeenAt) > expiry && now.After(entry.ValidUntil) {
 			delete(f.sleepCmdSeenCache, key)
 		}
 	}
@@ -1219,7 +1224,7 @@ func (f *Flooder) NodeInfoSeenCacheSize() int {
 
 // markSleepCmdSeen checks if a sleep/wake command has been seen and marks it as seen.
 // Returns true if this is a new command.
-func (f *Flooder) markSleepCmdSeen(originAgent identity.AgentID, commandID uint64, fromPeer identity.AgentID) bool {
+func (f *Flooder) markSleepCmdSeen(originAgent identity.AgentID, commandID uint64, timestamp uint64, fromPeer identity.AgentID) bool {
 	key := SleepCommandKey{
 		OriginAgent: originAgent,
 		CommandID:   commandID,
@@ -1235,32 +1240,38 @@ func (f *Flooder) markSleepCmdSeen(originAgent identity.AgentID, commandID uint6
 		return false
 	}
 
-	f.sleepCmdSeenCache[key] = &SeenSleepCommand{
+	entry := &SeenSleepCommand{
 		Key:      key,
 		SeenAt:   time.Now(),
 		SeenFrom: fromPeer,
 	}
+	if f.signingPubKey != nil && timestamp <= math.MaxInt64 {
+		entry.ValidUntil = time.Unix(int64(timestamp), 0).Add(f.timestampWindow)
+	}
+	f.sleepCmdSeenCache[key] = entry
 	return true
 }
 
 // HandleSleepCommand processes an incoming SLEEP_COMMAND frame.
 // Returns true if the command was new and should be processed.
 func (f *Flooder) HandleSleepCommand(fromPeer identity.AgentID, cmd *protocol.SleepCommand) bool {
-	if !f.markSleepCmdSeen(cmd.OriginAgent, cmd.CommandID, fromPeer) {
-		return false
-	}
-
-	if containsAgent(cmd.SeenBy, f.localID) {
-		return false
-	}
-
-	// Verify signature if signing key is configured
+	// Verify signature if signing key is configured. This happens before the command is
+	// remembered: unverified commands must not be able to push verified ones out of the
+	// seen cache.
 	if err := f.verifySleepCommand(cmd); err != nil {
 		f.logger.Warn("sleep command rejected",
 			"origin", cmd.OriginAgent.ShortString(),
 			"command_id", cmd.CommandID,
 			"from_peer", fromPeer.ShortString(),
 			logging.KeyError, err)
+		return false
+	}
+
+	if !f.markSleepCmdSeen(cmd.OriginAgent, cmd.CommandID, cmd.Timestamp, fromPeer) {
+		return false
+	}
+
+	if containsAgent(cmd.SeenBy, f.localID) {
 		return false
 	}
 
@@ -1279,21 +1290,22 @@ func (f *Flooder) HandleSleepCommand(fromPeer identity.AgentID, cmd *protocol.Sl
 // HandleWakeCommand processes an incoming WAKE_COMMAND frame.
 // Returns true if the command was new and should be processed.
 func (f *Flooder) HandleWakeCommand(fromPeer identity.AgentID, cmd *protocol.WakeCommand) bool {
-	if !f.markSleepCmdSeen(cmd.OriginAgent, cmd.CommandID, fromPeer) {
-		return false
-	}
-
-	if containsAgent(cmd.SeenBy, f.localID) {
-		return false
-	}
-
-	// Verify signature if signing key is configured
+	// Verify signature if signing key is configured (before the command is remembered,
+	// see HandleSleepCommand)
 	if err := f.verifyWakeCommand(cmd); err != nil {
 		f.logger.Warn("wake command rejected",
 			"origin", cmd.OriginAgent.ShortString(),
 			"command_id", cmd.CommandID,
 			"from_peer", fromPeer.ShortString(),
 			logging.KeyError, err)
+		return false
+	}
+
+	if !f.markSleepCmdSeen(cmd.OriginAgent, cmd.CommandID, cmd.Timestamp, fromPeer) {
+		return false
+	}
+
+	if containsAgent(cmd.SeenBy, f.localID) {
 		return false
 	}
 
@@ -1378,7 +1390,7 @@ func (f *Flooder) verifyWakeCommand(cmd *protocol.WakeCommand) error {
 // This is used to initiate mesh-wide sleep from this agent.
 // The command should already be signed if signing is required.
 func (f *Flooder) FloodSleepCommand(cmd *protocol.SleepCommand) error {
-	f.markSleepCmdSeen(cmd.OriginAgent, cmd.CommandID, f.localID)
+	f.markSleepCmdSeen(cmd.OriginAgent, cmd.CommandID, cmd.Timestamp, f.localID)
 
 	cmdWithSeen := &protocol.SleepCommand{
 		OriginAgent: cmd.OriginAgent,
@@ -1402,7 +1414,7 @@ func (f *Flooder) FloodSleepCommand(cmd *protocol.SleepCommand) error {
 // This is used to initiate mesh-wide wake from this agent.
 // The command should already be signed if signing is required.
 func (f *Flooder) FloodWakeCommand(cmd *protocol.WakeCommand) error {
-	f.markSleepCmdSeen(cmd.OriginAgent, cmd.CommandID, f.localID)
+	f.markSleepCmdSeen(cmd.OriginAgent, cmd.CommandID, cmd.Timestamp, f.localID)
 
 	// Store pending wake command for forwarding to new peers
 	f.storePendingWake(cmd)
